@@ -62,8 +62,8 @@ func (g *exprGen) member(depth int) {
 		g.emit("J")
 		g.emit("GE", g.r.Pick([]string{"MODE", "X", "NEW"}))
 	case 5:
-		g.emit("SH", g.r.Pick([]string{"", "/"}), "")
-		g.emit(strList([][]string{{}, {"static msg"}}[g.r.Intn(2)])...)
+		g.emit(g.r.Pick([]string{"SH", "SHS"}), g.r.Pick([]string{"", "/"}), "")
+		g.emit(strList([][]string{{}, {}, {"static msg"}}[g.r.Intn(3)])...)
 		g.emit(rawSpecFields([]rawSpec{{"s1", "s1", "", "", ""}, {"s2", "s2", "d", "", ""}})...)
 	default:
 		g.exprRef(depth, 0)
@@ -73,7 +73,15 @@ func (g *exprGen) member(depth int) {
 func batchGen(r *Rng, i int, cfg int, tier string) []string {
 	g := &exprGen{r: r}
 	n := 2 + r.Intn(4)
-	if r.Chance(1, 3) { // the same member expression (one Action value) several times, wrapped
+	if r.Chance(1, 4) { // one static Action shared by reference by several concurrently merging nested batches
+		g.emit("LET", r.Pick([]string{"SH", "SHS", "SHS"}), r.Pick([]string{"", "/"}), "")
+		g.emit(strList([][]string{{}, {}, {"static msg"}}[r.Intn(3)])...)
+		g.emit(rawSpecFields([]rawSpec{{"s1", "s1", "", "", ""}, {"s2", "s2", "d", "", ""}})...)
+		g.emit("B", strconv.Itoa(n))
+		for k := 0; k < n; k++ {
+			g.emit("B", "2", "REF", "0", "J", "M", "member error "+strconv.Itoa(k))
+		}
+	} else if r.Chance(1, 3) { // the same member expression (one Action value) several times, wrapped
 		g.emit("N", "1", "47", "BS", strconv.Itoa(n))
 		g.member(2)
 	} else {
